@@ -5,23 +5,10 @@ import (
 	"testing"
 )
 
-// graph6 decoder used only to validate the reference encoders against known nauty output.
 func cdDecodeG6(s string) *G {
-	b := []byte(s)
-	n, used, err := ParseSizeField(b)
+	g, err := ParseGraph6(s)
 	if err != nil {
 		panic(err)
-	}
-	b = b[used:]
-	g := New(n)
-	pos := 0
-	for j := 1; j < n; j++ {
-		for i := 0; i < j; i++ {
-			if int(b[pos/6]-63)>>uint(5-pos%6)&1 == 1 {
-				g.Add(i, j)
-			}
-			pos++
-		}
 	}
 	return g
 }
